@@ -7,15 +7,15 @@ Open Scope N_scope.
 
 (* `arrives` with the node states at the end of the route *)
 Inductive arrives_f (lns : list (N * list (nat * nat))) :
-  list wnode -> frame -> nat -> addr -> addr -> list N -> list wnode -> Prop :=
+  list wnode -> frame -> nat -> addr -> addr -> list N -> list wnode -> mac -> Prop :=
 | arrf_station : forall ns f who w m a sn sm,
     acceptor lns ns f who 0 w m ->
     adapters (w_node w) = [a] -> has_app (w_node w) = true ->
     n_msg (f_npdu f) = None -> n_dadr (f_npdu f) = None -> apdu_ok (n_data (f_npdu f)) = true ->
     n_sadr (f_npdu f) = Some (sn, sm) -> optN_eqb (a_net a) (Some sn) = false ->
     arrives_f lns ns f who (ARS sn sm) (ALS m) (n_data (f_npdu f))
-              (set_nth ns who (mkW (learned (w_node w) a (f_src f) (f_npdu f)) (w_ports w)))
-| arrf_last_router : forall ns f who i w m ai inet d dm j la lan' mj tgt s dd x nsf,
+              (set_nth ns who (mkW (learned (w_node w) a (f_src f) (f_npdu f)) (w_ports w))) (f_src f)
+| arrf_last_router : forall ns f who i w m ai inet d dm j la lan' mj tgt s dd x nsf rt,
     acceptor lns ns f who i w m ->
     nth_adapter (w_node w) i = Some ai -> nth_adapter (w_node w) (local_idx (w_node w)) = Some la ->
     modelled_config (w_node w) = true -> is_router (w_node w) = true -> a_net ai = Some inet ->
@@ -27,9 +27,9 @@ Inductive arrives_f (lns : list (N * list (nat * nat))) :
     arrives_f lns (set_nth ns who (mkW (learned (w_node w) ai (f_src f) (f_npdu f)) (w_ports w)))
             (mkFrame lan' mj (LStation dm)
                (mkNpdu None (Some (fwd_sadr inet (f_src f) (f_npdu f))) (n_hop (f_npdu f) - 1) None (n_data (f_npdu f))))
-            tgt s dd x nsf ->
-    arrives_f lns ns f tgt s dd x nsf
-| arrf_router : forall ns f who i w m ai inet d dm j m' lan' mj tgt s dd x nsf,
+            tgt s dd x nsf rt ->
+    arrives_f lns ns f tgt s dd x nsf rt
+| arrf_router : forall ns f who i w m ai inet d dm j m' lan' mj tgt s dd x nsf rt,
     acceptor lns ns f who i w m ->
     nth_adapter (w_node w) i = Some ai ->
     modelled_config (w_node w) = true -> is_router (w_node w) = true -> a_net ai = Some inet ->
@@ -41,52 +41,57 @@ Inductive arrives_f (lns : list (N * list (nat * nat))) :
             (mkFrame lan' mj (LStation m')
                (mkNpdu (n_dadr (f_npdu f)) (Some (fwd_sadr inet (f_src f) (f_npdu f))) (n_hop (f_npdu f) - 1) None
                        (n_data (f_npdu f))))
-            tgt s dd x nsf ->
-    arrives_f lns ns f tgt s dd x nsf.
+            tgt s dd x nsf rt ->
+    arrives_f lns ns f tgt s dd x nsf rt.
 
-Lemma arrives_f_arrives : forall lns ns f tgt s dd x nsf,
-  arrives_f lns ns f tgt s dd x nsf -> arrives lns ns f tgt s dd x.
+Lemma arrives_f_arrives : forall lns ns f tgt s dd x nsf rt,
+  arrives_f lns ns f tgt s dd x nsf rt -> arrives lns ns f tgt s dd x.
 Proof.
-  intros lns ns f tgt s dd x nsf H. induction H.
+  intros lns ns f tgt s dd x nsf rt H. induction H.
   - eapply arr_station; eauto.
   - eapply arr_last_router; eauto.
   - eapply arr_router; eauto.
 Qed.
 
-Theorem route_arrives_f : forall lns ns f tgt s dd x nsf,
-  arrives_f lns ns f tgt s dd x nsf ->
+Theorem route_arrives_f : forall lns ns f tgt s dd x nsf rt,
+  arrives_f lns ns f tgt s dd x nsf rt ->
   forall w, lans w = lns -> nodes w = ns -> queue w = [f] ->
   exists k osn, queue (run k w) = [] /\ nodes (run k w) = nsf /\ lans (run k w) = lns /\
-                trace (run k w) = osn ++ trace w /\ oups osn = [OUp tgt s dd x].
+                trace (run k w) = osn ++ trace w /\ oups osn = [OUp tgt s dd x] /\
+                (* the delivery is the last thing that happened, and the frame that made it came from rt *)
+                exists lf rest, osn = OUp tgt s dd x :: OFrame lf :: rest /\ f_src lf = rt /\ n_sadr (f_npdu lf) <> None.
 Proof.
-  intros lns ns f tgt s dd x nsf H. induction H; intros w0 Hl Hn Hq; subst lns ns.
+  intros lns ns f tgt s dd x nsf rt H. induction H; intros w0 Hl Hn Hq; subst lns ns.
   - pose proof (station_hands_up (w_node w) a (f_src f) (f_dst f) (f_npdu f) sn sm) as Hpr. feed Hpr.
     assert (He : emit (mkW (learned (w_node w) a (f_src f) (f_npdu f)) (w_ports w)) who
                       [Up (ARS sn sm) (ldest_to_addr (f_dst f)) (n_data (f_npdu f))]
                  = ([], [OUp who (ARS sn sm) (ldest_to_addr (f_dst f)) (n_data (f_npdu f))])) by reflexivity.
     pose proof (step_exact w0 f who 0 w m _ _ _ _ Hq H Hpr He) as Hs.
-    exists 1%nat. eexists. cbn [run]. rewrite Hs. cbn [queue trace nodes lans]. repeat split.
-    destruct H as (Hd & _). rewrite Hd. reflexivity.
+    assert (Hd : f_dst f = LStation m) by (destruct H as (Hd & _); exact Hd).
+    exists 1%nat, [OUp who (ARS sn sm) (ALS m) (n_data (f_npdu f)); OFrame f]. cbn [run]. rewrite Hs. cbn [queue trace nodes lans].
+    rewrite Hd. cbn [ldest_to_addr rev_append app]. repeat split. exists f, []. split; [reflexivity|]. split; [reflexivity|congruence].
   - pose proof (last_router_delivers (w_node w) i ai inet (f_src f) (f_dst f) (f_npdu f) d dm j la) as Hpr. feed Hpr.
     match type of Hpr with _ = (?nn, [Fwd _ ?dst ?q]) =>
       assert (He : emit (mkW nn (w_ports w)) who [Fwd j dst q] = ([mkFrame lan' mj dst q], []))
         by (cbn [emit w_ports]; match goal with Hx : nth_error (w_ports w) j = Some _ |- _ => rewrite Hx end; reflexivity)
     end.
     pose proof (step_exact w0 f who i w m _ _ _ _ Hq H Hpr He) as Hs.
-    match type of Hs with step _ = Some ?w1 => destruct (IHarrives_f w1 eq_refl eq_refl eq_refl) as (k & osn & A1 & A2 & A2' & A3 & A4) end.
-    exists (S k). exists (osn ++ [OFrame f]). cbn [run]. rewrite Hs. split; [exact A1|]. split; [exact A2|]. split; [exact A2'|]. split.
+    match type of Hs with step _ = Some ?w1 => destruct (IHarrives_f w1 eq_refl eq_refl eq_refl) as (k & osn & A1 & A2 & A2' & A3 & A4 & lf & rest & A5 & A6 & A7) end.
+    exists (S k). exists (osn ++ [OFrame f]). cbn [run]. rewrite Hs. split; [exact A1|]. split; [exact A2|]. split; [exact A2'|]. split; [|split].
     + rewrite A3. cbn [trace rev_append app]. rewrite <- app_assoc. reflexivity.
     + unfold oups in *. rewrite filter_app, A4. reflexivity.
+    + exists lf, (rest ++ [OFrame f]). rewrite A5. split; [reflexivity|split; assumption].
   - pose proof (router_forwards_unicast (w_node w) i ai inet (f_src f) (f_dst f) (f_npdu f) d dm j m') as Hpr. feed Hpr.
     match type of Hpr with _ = (?nn, [Fwd _ ?dst ?q]) =>
       assert (He : emit (mkW nn (w_ports w)) who [Fwd j dst q] = ([mkFrame lan' mj dst q], []))
         by (cbn [emit w_ports]; match goal with Hx : nth_error (w_ports w) j = Some _ |- _ => rewrite Hx end; reflexivity)
     end.
     pose proof (step_exact w0 f who i w m _ _ _ _ Hq H Hpr He) as Hs.
-    match type of Hs with step _ = Some ?w1 => destruct (IHarrives_f w1 eq_refl eq_refl eq_refl) as (k & osn & A1 & A2 & A2' & A3 & A4) end.
-    exists (S k). exists (osn ++ [OFrame f]). cbn [run]. rewrite Hs. split; [exact A1|]. split; [exact A2|]. split; [exact A2'|]. split.
+    match type of Hs with step _ = Some ?w1 => destruct (IHarrives_f w1 eq_refl eq_refl eq_refl) as (k & osn & A1 & A2 & A2' & A3 & A4 & lf & rest & A5 & A6 & A7) end.
+    exists (S k). exists (osn ++ [OFrame f]). cbn [run]. rewrite Hs. split; [exact A1|]. split; [exact A2|]. split; [exact A2'|]. split; [|split].
     + rewrite A3. cbn [trace rev_append app]. rewrite <- app_assoc. reflexivity.
     + unfold oups in *. rewrite filter_app, A4. reflexivity.
+    + exists lf, (rest ++ [OFrame f]). rewrite A5. split; [reflexivity|split; assumption].
 Qed.
 
 (* ---- what a router has learned about the source network *)
@@ -276,7 +281,7 @@ Lemma fwd_back : forall lns ns0 d lv up par dd srcn ws s smac a_s tgt wt dm a_t 
     ((f_lan f = s /\ f_src f = smac) \/
      (f_lan f <> s /\ BackOK lns ns0 dd srcn s smac d dm rdata (lv s) lv bh ns (f_lan f) (f_src f))) ->
     exists nsf mu Bf,
-      arrives_f lns ns f tgt (ARS s smac) (ALS dm) data nsf /\ sim dd ns0 nsf /\
+      arrives_f lns ns f tgt (ARS s smac) (ALS dm) data nsf mu /\ sim dd ns0 nsf /\
       nth_error nsf tgt = Some Bf /\ w_ports Bf = w_ports wt /\ adapters (w_node Bf) = adapters (w_node wt) /\
       pending (w_node Bf) = pending (w_node wt) /\
       cache_get (rcache (w_node Bf)) (a_net a_t) s = Some mu /\
@@ -480,8 +485,8 @@ Proof.
   - left. reflexivity.
   - left. split; reflexivity.
   - assert (Hq0 : queue w0 = [f0]) by (rewrite Hw0; reflexivity).
-    destruct (route_arrives_f _ _ _ _ _ _ _ _ A1 w0 ltac:(rewrite Hw0; reflexivity) ltac:(rewrite Hw0; reflexivity) Hq0)
-      as (k1 & osn1 & B1 & B2 & B3 & B4 & B5).
+    destruct (route_arrives_f _ _ _ _ _ _ _ _ _ A1 w0 ltac:(rewrite Hw0; reflexivity) ltac:(rewrite Hw0; reflexivity) Hq0)
+      as (k1 & osn1 & B1 & B2 & B3 & B4 & B5 & _).
     exists k1, osn1. split; [assumption|]. split; [rewrite B4, Hw0; reflexivity|]. split; [assumption|].
     set (w1 := run k1 w0) in *.
     assert (HsdB : optN_eqb (Some s) (a_net a_t) = false).
@@ -493,6 +498,88 @@ Proof.
     intro w2.
     assert (Hw2 : w2 = mkWorld (set_nth nsf tgt (mkW (w_node Bf) (w_ports Bf))) (lans w) [g0] (trace w1)).
     { unfold w2, submit. rewrite B2, A3, Hind2. cbn [emit w_ports]. rewrite A4, Hwtp. cbn [nth_error]. rewrite B1, B3. reflexivity. }
+    assert (Harr : arrives (lans w2) (nodes w2) g0 srcn (ARS d dm) (ALS smac) rdata).
+    { rewrite Hw2. cbn [lans nodes]. apply A8.
+      - intros who Hne. apply set_nth_nth_other. auto.
+      - apply sim_set_eta; assumption. }
+    assert (Hq2 : queue w2 = [g0]) by (rewrite Hw2; reflexivity).
+    destruct (route_arrives_exactly_once w2 g0 srcn _ _ _ Hq2 Harr) as (k2 & osn2 & C1 & C2 & C3 & C4).
+    exists k2, osn2. repeat split; auto. rewrite C3, Hw2. reflexivity.
+Qed.
+
+(* The same with settings.route_aware on: B is shown the source s:smac@rt, where rt is the link source of the frame
+   that delivered the request (up_route), and replies to exactly that address; the route-aware branch of indication
+   sends the reply straight to rt with DADR (s, smac) — B needs no cache entry and parks nothing. *)
+Theorem tree_reply_routable_route_aware : forall w d lv up par srcn ws s smac a_s tgt wt dm a_t data rdata mR,
+  internet_ok (lans w) (nodes w) -> tree_to (lans w) (nodes w) d lv up par -> queue w = [] ->
+  nth_error (nodes w) srcn = Some ws -> w_ports ws = [(s, smac)] -> adapters (w_node ws) = [a_s] ->
+  (a_net a_s = None \/ a_net a_s = Some s) -> has_app (w_node ws) = true ->
+  In (tgt, 0%nat) (lan_members (lans w) d) -> nth_error (nodes w) tgt = Some wt ->
+  w_ports wt = [(d, dm)] -> adapters (w_node wt) = [a_t] -> (a_net a_t = None \/ a_net a_t = Some d) ->
+  has_app (w_node wt) = true ->
+  (0 < lv s <= 255)%nat ->
+  pending_get (pending (w_node ws)) d = None ->
+  port_mac (nodes w) (par s) = Some mR -> cache_get (rcache (w_node ws)) (a_net a_s) d = Some mR ->
+  apdu_ok data = true -> apdu_ok rdata = true ->
+  (forall who wn, nth_error (nodes w) who = Some wn -> forall x, cache_get (rcache (w_node wn)) x s = None) ->
+  let w0 := submit w srcn (ARS d dm) data in
+  exists k1 lf rest,
+    queue (run k1 w0) = [] /\
+    trace (run k1 w0) = (OUp tgt (ARS s smac) (ALS dm) data :: OFrame lf :: rest) ++ trace w /\
+    oups (OUp tgt (ARS s smac) (ALS dm) data :: OFrame lf :: rest) = [OUp tgt (ARS s smac) (ALS dm) data] /\
+    up_route (w_node wt) 0 (f_src lf) (f_npdu lf) = Some (f_src lf) /\
+    let w2 := submit_routed (run k1 w0) tgt (ARS s smac) (f_src lf) rdata in
+    exists k2 osn2,
+      queue (run k2 w2) = [] /\ (forall k', (k2 <= k')%nat -> run k' w2 = run k2 w2) /\
+      trace (run k2 w2) = osn2 ++ trace (run k1 w0) /\
+      oups osn2 = [OUp srcn (ARS d dm) (ALS smac) rdata].
+Proof.
+  intros w d lv up par srcn ws s smac a_s tgt wt dm a_t data rdata mR Hio Htt Hq
+         Hws Hwsp Hwsa Hwsn Hwsh Htgt Hwt Hwtp Hwta Hwtn Hwth Hlv HpA HmR Hcache Hok Hrok Hcold w0.
+  assert (Hsd : s <> d) by (intro E; subst s; rewrite (tt_root _ _ _ _ _ _ Htt) in Hlv; lia).
+  set (dd := s + d + 1).
+  assert (Hdd : dd <> d) by (unfold dd; lia). assert (Hds : dd <> s) by (unfold dd; lia).
+  assert (HsdA : optN_eqb (Some d) (a_net a_s) = false).
+  { destruct Hwsn as [E|E]; rewrite E; cbn; [reflexivity|]. destruct (N.eqb_spec d s); [congruence|reflexivity]. }
+  pose proof (station_sends_unicast (w_node ws) a_s d dm mR data Hwsa HsdA HpA Hcache) as Hind.
+  set (p0 := mkNpdu (Some (DStation d dm)) None 255 None data) in *.
+  set (f0 := mkFrame s smac (LStation mR) p0).
+  assert (Hw0 : w0 = mkWorld (set_nth (nodes w) srcn (mkW (w_node ws) (w_ports ws))) (lans w) [f0] (trace w)).
+  { unfold w0, submit. rewrite Hws, Hind. cbn [emit w_ports]. rewrite Hwsp. cbn [nth_error]. rewrite Hq. reflexivity. }
+  destruct (lv s) as [|k] eqn:Ek; [lia|].
+  destruct (fwd_back (lans w) (nodes w) d lv up par dd srcn ws s smac a_s tgt wt dm a_t data rdata
+              Hio Htt Hdd Hds Hws Hwsp Hwsa Hwsn Hwsh Htgt Hwt Hwtp Hwta Hwtn Hwth Hok Hrok Hsd ltac:(lia) Hcold
+              k (set_nth (nodes w) srcn (mkW (w_node ws) (w_ports ws))) f0 mR [srcn])
+    as (nsf & mu & Bf & A1 & A2 & A3 & A4 & A5 & A6 & A7 & A8);
+    try reflexivity; try assumption.
+  - apply sim_set_same. assumption.
+  - intros who Hwho. apply set_nth_nth_other. intro E. apply Hwho. left. assumption.
+  - intros who [E|[]]. left. auto.
+  - exists (srcn, 0%nat), smac. unfold port_of. cbn [fst snd]. rewrite Hws, Hwsp. reflexivity.
+  - cbn. change (N.to_nat 255) with 255%nat. lia.
+  - cbn. intros sn sm E. discriminate E.
+  - left. reflexivity.
+  - left. split; reflexivity.
+  - assert (Hq0 : queue w0 = [f0]) by (rewrite Hw0; reflexivity).
+    destruct (route_arrives_f _ _ _ _ _ _ _ _ _ A1 w0 ltac:(rewrite Hw0; reflexivity) ltac:(rewrite Hw0; reflexivity) Hq0)
+      as (k1 & osn1 & B1 & B2 & B3 & B4 & B5 & lf & rest & B6 & B7 & B8).
+    subst osn1. exists k1, lf, rest. split; [assumption|]. split; [rewrite B4, Hw0; reflexivity|]. split; [assumption|].
+    split.
+    { (* the frame that delivered the request carries the SADR of the originator: the source shown has a route *)
+      unfold up_route, is_router. rewrite Hwta. cbn [length Nat.eqb negb andb].
+      (* a delivery showing a remote source means the frame had a SADR *)
+      destruct (n_sadr (f_npdu lf)); [reflexivity|congruence]. }
+    rewrite B7.
+    set (w1 := run k1 w0) in *.
+    assert (HaB : adapters (w_node Bf) = [a_t]) by (rewrite A5; assumption).
+    set (g0 := mkFrame d dm (LStation mu) (mkNpdu (Some (DStation s smac)) None 255 None rdata)).
+    intro w2.
+    assert (Hw2 : w2 = mkWorld (set_nth nsf tgt (mkW (w_node Bf) (w_ports Bf))) (lans w) [g0] (trace w1)).
+    { unfold w2, submit_routed. rewrite B2, A3. unfold indication_routed, local_idx, nth_adapter. rewrite HaB.
+      cbn [last_with_addr].
+      assert (Hl : match match a_mac a_t with Some _ => Some 0%nat | None => None end with Some i => i | None => 0%nat end = 0%nat)
+        by (destruct (a_mac a_t); reflexivity).
+      rewrite Hl. cbn [nth_error emit w_ports]. rewrite A4, Hwtp. cbn [nth_error]. rewrite B1, B3. reflexivity. }
     assert (Harr : arrives (lans w2) (nodes w2) g0 srcn (ARS d dm) (ALS smac) rdata).
     { rewrite Hw2. cbn [lans nodes]. apply A8.
       - intros who Hne. apply set_nth_nth_other. auto.
